@@ -18,3 +18,6 @@ func (t *VT) VerifC16Held() []byte {
 	}
 	return out
 }
+
+// VerifC16Geometry returns the character geometry the terminal was attached with.
+func (t *VT) VerifC16Geometry() (uint32, uint32) { return t.viewportWidth, t.viewportHeight }
